@@ -189,7 +189,7 @@ pub fn check_endpoint(v: &View, e: Side) -> WireOut {
                         st.counted_open = false;
                         open_count -= 1;
                     }
-                    if st.es_sent || st.es_submitted {
+                    if st.es_sent || st.es_submitted || (e_is_client && f.sid % 2 == 0) {
                         accepted_active.remove(&f.sid);
                     }
                 }
@@ -204,6 +204,32 @@ pub fn check_endpoint(v: &View, e: Side) -> WireOut {
                         st.es_submitted = true;
                         if st.es_read_by_e {
                             accepted_active.remove(&a.sid);
+                        }
+                    }
+                }
+            }
+            EvK::Api(a) if a.side == e && e_is_client && a.phase == Phase::Ret && matches!(a.op, Op::DropRecv) && a.sid % 2 == 0 && a.sid != 0 => {
+                // the application let go of a pushed response body: no longer active for it
+                accepted_active.remove(&a.sid);
+            }
+            EvK::Api(a) if a.side == e && e_is_client && a.phase == Phase::Ret && a.op == Op::PushedResponse => {
+                if let Res::Ok = a.res {
+                    stats.inc(&p("pushed_responses_surfaced"));
+                    if refused_by_e.contains(&a.sid) {
+                        fail(&mut viol, "C05", "refused-stream-surfaced", format!("{}: pushed stream {} was answered with REFUSED_STREAM and its response was later handed to the application", e.name(), a.sid));
+                    }
+                    let st = streams.entry(a.sid).or_default();
+                    let still = !(st.rst_read_by_e || st.rst_sent > 0 || st.rst_submitted || st.es_read_by_e);
+                    if still {
+                        accepted_active.insert(a.sid, ());
+                    }
+                    if let Some(l) = e_advertised_mcs {
+                        stats.max(&p("max.accepted_active"), accepted_active.len() as u64);
+                        if accepted_active.len() as u64 > l as u64 {
+                            fail(&mut viol, "C05", "surfaced-pushed-streams-exceed-advertised-limit", format!("{}: {} pushed streams handed to the application are certainly active > advertised {}: {:?}", e.name(), accepted_active.len(), l, accepted_active.keys().collect::<Vec<_>>()));
+                        }
+                        if accepted_active.len() as u64 == l as u64 {
+                            stats.inc(&p("accept_at_limit"));
                         }
                     }
                 }
